@@ -721,9 +721,11 @@ func runMesh(cs Case, stall, cap time.Duration) (res result) {
 	lateNote := ""
 	if len(tableBad) > 0 {
 		// Does the table complete itself a little later (late registration) or
-		// is the connection lost for good?  The longest drawn delay is 20 ms.
+		// is the connection lost for good?  The longest drawn delay is 20 ms,
+		// but on an oversubscribed machine a single goroutine can be off the
+		// CPU for 100 ms and more, hence the generous limit.
 		late := false
-		for try := 0; try < 100 && !late; try++ {
+		for try := 0; try < 2000 && !late; try++ {
 			time.Sleep(time.Millisecond)
 			late = true
 			for p := 0; p < n; p++ {
@@ -736,7 +738,7 @@ func runMesh(cs Case, stall, cap time.Duration) (res result) {
 		if !late {
 			return result{kind: "fail", sig: "table/incomplete",
 				msg: "peer table when Connect returned: " + strings.Join(tableBad, " | ") +
-					" (the tables are still wrong 100 ms later)\n" + m.describe()}
+					" (the tables are still wrong 2 s later)\n" + m.describe()}
 		}
 		// Keep checking behind this failure with the completed tables; it is
 		// reported at the end unless something else is wrong as well.
